@@ -4,7 +4,7 @@ from __future__ import annotations
 from .. import decoders, normal, render, sym
 from ..decoders import classify, fmt_atoms
 from ..model import AnalysisError, Repo
-from ..report import Run
+from ..report import Run, take_over
 from ..sym import T, const
 
 EXPLANATION = (
@@ -242,6 +242,9 @@ def lookup_obligations(repo: Repo, run: Run, why: str) -> None:
 
 
 def check(repo: Repo, run: Run) -> None:
+    take_over(run, "c05", "C05", repo, lambda o: o["rule"] == "R3" and o["module"].endswith(("trace_handlers.bsd", "trace_handlers.mach")),
+              "R0", "no state kept between renderings", "what a decoder or a rendering helper leaves in a module-level object is there "
+              "for the next call: the text of a call then shows words of an earlier one", 0)
     window_obligations(repo, run, ("K3", "K9"),
                        "the decoder's events[0] is then not the START record of the call being rendered")
     lookup_obligations(repo, run, "a path argument is then not (only) what the nested lookup records of the call spell")
